@@ -4,10 +4,13 @@ CONSTANTS
   SlowDelay = 80
   HangDelay = 700
   TimeoutRecoverable = TRUE
+  BackoffGrows = TRUE
   MaxLenWebhook = 5
   MaxLenPagerduty = 4
   Deadlines = {450, 1600, 2900}
   CancelDeadline = 2900
   Cancels = {130, 950}
+  LongDeadlines = {5000, 8000}
+  LongLen = 2
 INVARIANTS InvCanonical InvClauses InvClosed InvLogOnly InvBounded InvProgress
 CHECK_DEADLOCK FALSE
